@@ -34,28 +34,16 @@ def direction_flags(ctx, P, rule, module):
 
 def exclusive_pushes(ctx, P, rule, path):
     """each header yields exactly one entry of the header order: the pushes of the per-header loop are mutually exclusive"""
-    from ..engine import cfg as C
+    from ..engine import lists as L
     b = P.body(path)
-    loops = C.loops(b)
-    pushes = [blk for blk, t in b.calls() if callee_of(t).endswith("Vec::<T, A>::push")]
-    bad = None
-    for h, blks in loops.items():
-        inl = [p for p in pushes if p in blks]
-        for p in inl:
-            seen, todo = set(), [s for s in b.succs(p)]
-            while todo:
-                x = todo.pop()
-                if x in seen or x == h or x not in blks:
-                    continue
-                seen.add(x)
-                if x in inl and x != p:
-                    bad = (p, x)
-                    break
-                todo.extend(b.succs(x))
-            if bad:
-                break
     name = path.rsplit("::", 1)[-1]
-    ctx.check(bad is None and len(pushes) >= 3, rule, name + ":one-entry-per-header", "the %d pushes of the header loop are mutually exclusive" % len(pushes),
+    lb = L.list_build(P, b)
+    if lb is None:
+        ctx.cannot(rule, name + ":one-entry-per-header", "neither a push loop nor an iterator chain builds the returned header list", ctx.loc(b))
+        return
+    bad = None if lb.exclusive else (lb.witness or (0, 0))
+    pushes = lb.elements
+    ctx.check(bad is None and len(pushes) >= 3, rule, name + ":one-entry-per-header", "the %d alternatives of the per-header step are mutually exclusive" % len(pushes),
               "%s can push two entries for one header (a path leads from one push to another within the same iteration): a header on the optional list appears as `?name` "
               "and again as `name=[value]` in the derived signature" % name, ctx.loc(b, bad[0]) if bad else ctx.loc(b))
 
